@@ -221,13 +221,77 @@ def sh_ret_struct(i, rnd):
     return d, ["r := mk%d()" % i, "bt%d(r.a)" % i], "string"
 
 
+def sh_rec_arg_origin(i, rnd):
+    """the second origin enters ONLY through an argument of the recursive call"""
+    d = ("func build%d(s string, n int) string {\n\tif n == 0 {\n\t\treturn s\n\t}\n\treturn build%d(s+o%db(), n-1)\n}\n" % (i, i, i))
+    return d, ["bt%d(build%d(o%da(), %d))" % (i, i, i, 2 + rnd(2))], "string"
+
+
+def sh_rec_mutual(i, rnd):
+    d = ("func ping%d(s string, n int) string {\n\tif n == 0 {\n\t\treturn s\n\t}\n\treturn pong%d(s+o%db(), n-1)\n}\n"
+         "func pong%d(s string, n int) string {\n\tif n == 0 {\n\t\treturn s\n\t}\n\treturn ping%d(s+\"~\", n-1)\n}\n" % (i, i, i, i, i))
+    return d, ["bt%d(ping%d(o%da(), 3))" % (i, i, i)], "string"
+
+
+def sh_rec_acc_down(i, rnd):
+    """recursion that carries the value DOWN to the backtrace point; an origin is added at every level"""
+    d = ("func walk%d(s string, n int) {\n\tif n == 0 {\n\t\tbt%d(s)\n\t\treturn\n\t}\n\twalk%d(s+o%db(), n-1)\n}\n" % (i, i, i, i))
+    return d, ["walk%d(o%da(), 2)" % (i, i)], "string"
+
+
+def sh_glob_2w_self(i, rnd):
+    """global written in the function holding the backtrace point and in another function; read after both"""
+    d = "var GS%d string\nfunc gw%d() { GS%d = o%db() }\n" % (i, i, i, i)
+    return d, ["GS%d = o%da()" % (i, i), "gw%d()" % i, "bt%d(GS%d)" % (i, i)], "string"
+
+
+def sh_glob_2w_self_after(i, rnd):
+    """the bt-holding function writes the global AFTER the read; the value read comes from the other writer"""
+    d = "var GA%d string\nfunc ga%d() { GA%d = o%db() }\n" % (i, i, i, i)
+    return d, ["ga%d()" % i, "bt%d(GA%d)" % (i, i), "GA%d = o%da()" % (i, i)], "string"
+
+
+def sh_glob_2w_concat(i, rnd):
+    """both writers' origins reach the backtrace point natively"""
+    d = "var GC%d string\nfunc gc%d() { GC%d = GC%d + o%db() }\n" % (i, i, i, i, i)
+    return d, ["GC%d = o%da()" % (i, i), "gc%d()" % i, "bt%d(GC%d)" % (i, i)], "string"
+
+
+def sh_glob_3w(i, rnd):
+    d = ("var GT%d string\nfunc gt%d_1() { GT%d = GT%d + o%db() }\nfunc gt%d_2() { GT%d = GT%d + o%dc() }\n"
+         % (i, i, i, i, i, i, i, i, i))
+    if rnd(2) == 0:
+        return d, ["GT%d = o%da()" % (i, i), "gt%d_1()" % i, "gt%d_2()" % i, "bt%d(GT%d)" % (i, i)], "string"
+    return d, ["gt%d_1()" % i, "GT%d = GT%d + o%da()" % (i, i, i), "gt%d_2()" % i, "bt%d(GT%d)" % (i, i)], "string"
+
+
+def sh_glob_2w_other(i, rnd):
+    """two writers, neither is the function holding the backtrace point"""
+    d = ("var GO%d string\nfunc go%d_1() { GO%d = o%da() }\nfunc go%d_2() { GO%d = GO%d + o%db() }\n"
+         % (i, i, i, i, i, i, i, i))
+    return d, ["go%d_1()" % i, "go%d_2()" % i, "bt%d(GO%d)" % (i, i)], "string"
+
+
+def sh_glob_reader_helper(i, rnd):
+    """the read is in a helper whose caller (holding bt) also writes the global; a third function writes too"""
+    d = ("var GR%d string\nfunc gr%d_w() { GR%d = GR%d + o%db() }\nfunc gr%d_r() string { return GR%d }\n"
+         % (i, i, i, i, i, i, i))
+    return d, ["GR%d = o%da()" % (i, i), "gr%d_w()" % i, "bt%d(gr%d_r())" % (i, i)], "string"
+
+
+def sh_glob_struct(i, rnd):
+    """a global struct whose field is written in two functions"""
+    d = ("type GF%d struct { a string }\nvar GV%d GF%d\nfunc gv%d() { GV%d.a = GV%d.a + o%db() }\n" % (i, i, i, i, i, i, i))
+    return d, ["GV%d.a = o%da()" % (i, i), "gv%d()" % i, "bt%d(GV%d.a)" % (i, i)], "string"
+
+
 def sh_nested_closure(i, rnd):
     d = ("func h%d() string {\n\tz := \"z\"\n\ty := o%da()\n\tc2 := func() string { return z + y }\n\treturn c2()\n}\n" % (i, i))
     return d, ["x := \"\"", "c1 := func() { x = h%d() }" % i, "c1()", "bt%d(x)" % i], "string"
 
 
 # shapes on which the pinned analysis panics are generated into programs of their own (a panic hides every other result)
-ISOLATED = collections.OrderedDict([("nested-closure", sh_nested_closure)])
+ISOLATED = collections.OrderedDict([])
 
 SHAPES = collections.OrderedDict([
     ("direct", sh_direct), ("concat2", sh_concat2), ("helper", sh_helper), ("down", sh_down),
@@ -238,7 +302,11 @@ SHAPES = collections.OrderedDict([
     ("two-ctx", sh_two_ctx), ("rec", sh_rec), ("tuple-first", sh_tuple_first), ("tuple-second", sh_tuple_second),
     ("tuple-sum", sh_tuple_sum), ("tuple-err", sh_tuple_err), ("defer-bt", sh_defer_bt), ("go-bt", sh_go_bt),
     ("two-args", sh_two_args), ("loop", sh_loop), ("branch", sh_branch), ("method", sh_method),
-    ("ret-struct", sh_ret_struct),
+    ("ret-struct", sh_ret_struct), ("nested-closure", sh_nested_closure),
+    ("rec-arg-origin", sh_rec_arg_origin), ("rec-mutual", sh_rec_mutual), ("rec-acc-down", sh_rec_acc_down),
+    ("glob-2w-self", sh_glob_2w_self), ("glob-2w-self-after", sh_glob_2w_self_after), ("glob-2w-concat", sh_glob_2w_concat),
+    ("glob-3w", sh_glob_3w), ("glob-2w-other", sh_glob_2w_other), ("glob-reader-helper", sh_glob_reader_helper),
+    ("glob-struct", sh_glob_struct),
 ])
 
 # stable keys of the failing input classes (known_findings.txt)
@@ -321,12 +389,13 @@ def gen_program(seed, nscen, pkg, shapes=None):
         pts = ptypes.split(",")
         params = ", ".join("x%d %s" % (j, t) for j, t in enumerate(pts))
         hitl = "; ".join("hit(%d, %d, x%d)" % (i, j, j) for j in range(len(pts)))
-        src.append('func o%da() string { return "M%dA" }\nfunc o%db() string { return "M%dB" }' % (i, i, i, i))
+        src.append('func o%da() string { return "M%dA" }\nfunc o%db() string { return "M%dB" }\nfunc o%dc() string { return "M%dC" }'
+                   % (i, i, i, i, i, i))
         src.append("func bt%d(%s) { %s }" % (i, params, hitl))
         if decls:
             src.append(decls.rstrip("\n"))
         src.append("func s%d() {\n\t%s\n}" % (i, "\n\t".join(body)))
-        markers += ["M%dA" % i, "M%dB" % i, "K%dZ" % i]
+        markers += ["M%dA" % i, "M%dB" % i, "M%dC" % i, "K%dZ" % i]
         calls.append("s%d()" % i)
         scen.append((i, name, "%s|%s" % (name, re.sub(r"\d+", "#", "\n".join(body) + decls))))
     src.append("func main() {\n\tmarkerRe = []string{%s}\n\t%s\n\ttime.Sleep(50 * time.Millisecond)\n\tfor h := range hits {\n\t\tfmt.Println(h)\n\t}\n}"
@@ -341,7 +410,7 @@ CONFIG = """slicing-problems:
 taint-tracking-problems:
   - sources:
       - package: "%(pkg)s"
-        method: "^o[0-9]+[ab]$"
+        method: "^o[0-9]+[abc]$"
     sinks:
       - package: "%(pkg)s"
         method: "^bt[0-9]+$"
@@ -422,10 +491,11 @@ def run(chk):
     tie_broken = []           # (what, dir, mode)
     shape_dist = collections.Counter()
     variants = set()
+    mode_diffs = []
 
     # ---- generated scenario programs
     nprog = 1 if tier == "quick" else 5
-    nscen = 45 if tier == "quick" else 60
+    nscen = 52 if tier == "quick" else 70
     gens = []
     isolated = []
     for k in range(nprog):
@@ -455,7 +525,9 @@ def run(chk):
                           timeout=3000, env=env)
         if rc not in (0, 2, 3) or not os.path.exists(dump):
             raise vlib.BuildError("c03dump failed on %s" % tag, out)
-        rc, mout, merr = vlib.sh2([model], inp=open(dump, errors="replace").read(), timeout=3000)
+        # the tree now carries the two repairs (5c50586, a7dccfe): the repaired model variant is tried first, the driver
+        # falls back to the other variants when it does not stay in sync
+        rc, mout, merr = vlib.sh2([model, "-fix-tuple", "-fix-ctrace"], inp=open(dump, errors="replace").read(), timeout=3000)
         if rc != 0:
             raise vlib.BuildError("c03model failed on %s" % tag, merr)
         mp = os.path.join(work, tag + ".model")
@@ -484,8 +556,8 @@ def run(chk):
             if cx == "ctx":
                 stats["visits_contexts_equal"] += 1
         stats["push_events"] += isec["nA"]
-        if msec.get("variant") and msec["variant"] != "fix_tuple=0 fix_ctrace=0":
-            stats["runs_tied_to_repaired_model"] += 1
+        if msec.get("variant") and msec["variant"] != "fix_tuple=1 fix_ctrace=1":
+            stats["runs_tied_to_other_model_variant"] += 1
             variants.add(msec["variant"])
         args = set(a for _, al in isec["E"] for a in al)
         stats["entry_args"] += len(args)
@@ -554,6 +626,30 @@ def run(chk):
     bydir = collections.defaultdict(dict)
     for s, m in zip(isecs, msecs):
         bydir[s["dir"]][s["mode"]] = (s, m)
+
+    def entries_of(isec):
+        entry = collections.defaultdict(dict)     # scenario -> arg index -> [arg ids]
+        for c, al in isec["E"]:
+            m = re.search(r"call: bt(\d+)\(", isec["N"].get(c, ("", ""))[1])
+            if m:
+                for j, a in enumerate(al):
+                    entry[int(m.group(1))].setdefault(j, []).append(a)
+        return entry
+
+    def origins_of(isec, entry):
+        om = {}                                   # (scenario, arg index) -> origin callee names on its traces
+        for i, byj in entry.items():
+            for j, al in byj.items():
+                st = om.setdefault((i, j), set())
+                for a in al:
+                    for t in isec["T"].get(a, set()):
+                        for n in t.split(","):
+                            nd = isec["N"].get(n)
+                            mm = nd and nd[0] == "C" and re.search(r"call: (o\d+[abc])\(\)", nd[1])
+                            if mm:
+                                st.add(mm.group(1))
+        return om
+
     for d, scen in gens:
         rc, out, err = vlib.sh2(["go", "run", "."], cwd=d, timeout=900)
         if rc != 0:
@@ -565,6 +661,10 @@ def run(chk):
             if len(p) == 4 and p[0] == "HIT":
                 hitset.add((int(p[1]), int(p[2]), p[3]))
         taint_pairs = bydir[d].get("taint", ({"F": set()}, None))[0]["F"]
+        origins_by_mode = {}       # mode -> {(scenario, arg index): set of origin callee names on its traces}
+        for mode in ("eager", "ondemand"):
+            if mode in bydir[d] and not any(x.startswith("PANIC") for x in bydir[d][mode][0]["X"]):
+                origins_by_mode[mode] = origins_of(bydir[d][mode][0], entries_of(bydir[d][mode][0]))
         for mode in ("eager", "ondemand"):
             if mode not in bydir[d]:
                 if d in isolated and mode == "ondemand":
@@ -599,13 +699,7 @@ def run(chk):
                 tie_broken.append((pr, d, mode))
             cert(isec, msec, d)
             spec_stats(isec, msec)
-            # entry arguments per scenario
-            entry = collections.defaultdict(dict)     # i -> j -> [arg ids]
-            for c, al in isec["E"]:
-                m = re.search(r"call: bt(\d+)\(", isec["N"].get(c, ("", ""))[1])
-                if m:
-                    for j, a in enumerate(al):
-                        entry[int(m.group(1))].setdefault(j, []).append(a)
+            entry = entries_of(isec)
             for (i, name, sig) in scen:
                 shape_dist[name] += 1
                 distinct.add(sig)
@@ -634,13 +728,17 @@ def run(chk):
                     for fn in ("main.go", "config.yaml", "go.mod"):
                         shutil.copy(os.path.join(d, fn), rd)
                     fwd = ("o%d%s" % (i, mk[-1].lower()), "bt%d" % i) in taint_pairs if mk.startswith("M") else None
+                    other = "ondemand" if mode == "eager" else "eager"
+                    other_has = None
+                    if mk.startswith("M") and other in origins_by_mode:
+                        other_has = ("o%d%s" % (i, mk[-1].lower())) in origins_by_mode[other].get((i, hj), set())
                     with open(os.path.join(rd, "replay.txt"), "w") as f:
                         f.write("scenario s%d (shape %s, %s): native execution delivers marker %s to argument %d of bt%d, but no trace "
                                 "reported by backtrace.Analyze for that argument contains the origin (%s); entry args found: %s; "
-                                "taint analysis (source=origin, sink=bt) reports the pair: %s\n"
+                                "taint analysis (source=origin, sink=bt) reports the pair: %s; the %s run has the origin on a trace: %s\n"
                                 "re-run: cd <this dir> && go run . | grep 'HIT %d ' ; argot backtrace -config config.yaml .   "
                                 "(or build/bin/c03dump -both <dir> | build/bin/c03model)\n"
-                                % (i, name, mode, mk, hj, i, pat, entry.get(i, {}), fwd, i))
+                                % (i, name, mode, mk, hj, i, pat, entry.get(i, {}), fwd, other, other_has, i))
                     if chk.violation(key, "shape %s (%s): origin %s reaches bt%d natively, no reported trace contains it"
                                      % (name, mode, mk, i), rd):
                         found_concrete = True
@@ -654,7 +752,7 @@ def run(chk):
                     for t in isec["T"].get(a, set()):
                         for n in t.split(","):
                             nd = isec["N"].get(n)
-                            mm = nd and nd[0] == "C" and re.search(r"call: (o\d+[ab])\(\)", nd[1])
+                            mm = nd and nd[0] == "C" and re.search(r"call: (o\d+[abc])\(\)", nd[1])
                             if mm:
                                 back_pairs.add((mm.group(1), "bt" + m.group(1)))
             stats["fwd_pairs"] = len(taint_pairs)
@@ -665,6 +763,22 @@ def run(chk):
                 chk.sample({"program": os.path.basename(d), "mode": mode, "entry_args": sum(len(al) for _, al in isec["E"]),
                             "traces": sum(len(v) for v in isec["T"].values()), "push_events": isec["nA"],
                             "native_hits": len(hitset), "fwd_only": sorted(taint_pairs - back_pairs)[:6]})
+
+        # eager vs on-demand: origin sets per (scenario, argument).  A difference is evidence (the alarm is the native
+        # judgement above, made in both modes); read-only globals such as os.Args differ by design of isBaseCase.
+        if "eager" in origins_by_mode and "ondemand" in origins_by_mode:
+            names = dict((i, n) for i, n, _ in scen)
+            keys = set(origins_by_mode["eager"]) | set(origins_by_mode["ondemand"])
+            for k in sorted(keys):
+                e_, o_ = origins_by_mode["eager"].get(k, set()), origins_by_mode["ondemand"].get(k, set())
+                stats["mode_compared_args"] += 1
+                if e_ == o_:
+                    stats["mode_equal_origin_sets"] += 1
+                else:
+                    if e_ - o_:
+                        mode_diffs.append("%s: eager-only %s" % (names.get(k[0]), sorted(e_ - o_)))
+                    if o_ - e_:
+                        mode_diffs.append("%s: ondemand-only %s" % (names.get(k[0]), sorted(o_ - e_)))
 
     # ---- 2. repository testdata: tie + certificate + spec statistics
     if corpus_job is not None:
@@ -705,8 +819,9 @@ def run(chk):
     stats["tie_disagreements"] = len(tie_broken)
     chk.cov["distribution"] = dict(stats)
     chk.cov["shapes"] = dict(shape_dist)
+    chk.cov["eager_vs_ondemand_origin_differences"] = mode_diffs[:40]
     if variants:
-        chk.notes.append("runs in sync only with the repaired model variant(s): %s" % sorted(variants))
+        chk.notes.append("runs in sync only with model variant(s) other than fix_tuple=1 fix_ctrace=1: %s" % sorted(variants))
     hit = set(k for k, _ in chk.known_hit)
     stale = [k["key"] for k in vlib.load_known() if k["property"] == chk.prop and k["key"] not in hit]
     if stale:
